@@ -183,6 +183,21 @@ def property_checks(inp):
         A(("zernikeArray(list, rot) = the rotated single modes (rot %g)" % rot_, float(numpy.abs(Zl_ - numpy.array([zk.zernike_nm(*zk.zernIndex(j_), N, rot_) for j_ in lst])).max()), 0.0))
         A(("zernike_noll(j, N, rot) = zernike_nm(n, m, N, rot), rotation given positionally or by keyword (rot %g)" % rot_,
            float(max(numpy.abs(zk.zernike_noll(j_, N, rot_) - zk.zernike_nm(*zk.zernIndex(j_), N, rot_)).max() + numpy.abs(zk.zernike_noll(j_, N, rot=rot_) - zk.zernike_nm(*zk.zernIndex(j_), N, rot=rot_)).max() for j_ in lst)), 0.0))
+    # index lists of any length (one index included), given as list, tuple or array: always the listed modes, never a count
+    one = int(lst[-1])
+    for form, arg in (("list", [one]), ("tuple", (one,)), ("array", numpy.array([one]))):
+        got1 = zk.zernikeArray(arg, N)
+        A(("zernikeArray of a one-element index %s = that single mode" % form,
+           float(numpy.abs(got1 - zk.zernike_noll(one, N)[None]).max()) if got1.shape == (1, N, N) else float("inf"), 0.0))
+    # coefficient vectors with zero entries anywhere (leading, inner, trailing): the k-th coefficient multiplies the k-th mode
+    cz = npr.normal(size=J); cz[0] = 0.0
+    if J >= 3:
+        cz[J // 2] = 0.0
+    cz2 = cz.copy(); cz2[-1] = 0.0
+    for cvec in (cz, cz2, numpy.concatenate([[0.0, 0.0], npr.normal(size=max(J - 2, 1))])):
+        Zc = zk.zernikeArray(len(cvec), N)
+        A(("phase from coefficients with zero entries is still the combination of the modes at their own indices",
+           float(numpy.abs(zk.phaseFromZernikes(list(cvec), N) - numpy.tensordot(cvec, Zc, axes=1)).max()), 1e-12))
     co = npr.normal(size=J)
     A(("phase from coefficients is the linear combination", float(numpy.abs(zk.phaseFromZernikes(list(co), N) - numpy.tensordot(co, Zs, axes=1)).max()), 1e-12))
     # gamma matrices vs actual gradients (analytic modes on a fine grid, central differences in the interior)
